@@ -242,7 +242,7 @@ PROPERTIES = {
         'level': 'other',
         'claim': 'the SIGINT handler writes Display::abort = true and nothing else; main binds SIGINT to it exactly once, before the loop, by a call that keeps it installed (so repeated interrupts are idempotent); with the abort flag modelled as a monotone flag that may become set at every read, the loop can only be left at its head (a step in progress completes), the final-record block then appends exactly one record for the state reached when a file is open, '
                  'all time-indexed datasets have equal length at exit, pending RF records are flushed, a closing message is printed and main returns EXIT_SUCCESS',
-        'assumptions': [DROPS, 'signal delivery does not make library calls fail', 'set-up phase before the loop is not covered', 'signal(2) has BSD semantics (glibc): the handler stays installed'],
+        'assumptions': [DROPS, 'signal delivery does not make library calls fail', 'set-up phase between the installation of the handler and the loop: covered only in so far as the request is neither cleared nor read there (main#signal.request_never_cleared, request_not_consumed_before_the_loop), so it reaches the loop condition; exceptions thrown during set-up while a request is pending are not modelled', 'signal(2) has BSD semantics (glibc): the handler stays installed'],
         'uncovered': ['signals during set-up beyond the two facts proved (handler installed by the first statement; main never stores anything but true into the flag) — the set-up code is not enumerated statement by statement', 'HDF5 library behaviour under EINTR', 'identity of earlier records with the uninterrupted run (follows from C12 claim)'],
         'explanation': 'posts of the control skeleton at function exit',
         'technique': TECH,
